@@ -38,6 +38,11 @@ pub enum Policy {
     /// static priorities like `Prio`, but threads of equal rank (in particular all threads no pattern names) take
     /// turns: the producers run ahead as the order says, and whoever is left advances evenly
     PrioRR(Vec<String>),
+    /// like P1, but a thread that yields keeps the processor, as it does on a machine with idle cores: consumers
+    /// run through their back-off and really go to sleep on an empty queue, and are woken item by item (under
+    /// P0 and P1 a yielding thread steps aside, so a consumer hardly ever gets as far as sleeping). After 20
+    /// yields in a row a thread steps aside here too (a spin-wait on another thread must not starve it).
+    P2,
 }
 
 #[derive(Clone, Debug, Serialize, Deserialize, PartialEq)]
@@ -246,10 +251,28 @@ pub const NSLOTS: usize = 64;
 struct Slot {
     pid: AtomicI32,
     since_ms: AtomicU64,
+    /// 0 = quiet, 1 = killed because a call did not return (stall or real block), 2 = killed because the thread
+    /// burned SPIN_CPU_MS of processor time without reaching a system call
     fired: AtomicI32,
+    /// the task being waited for, and its processor time (clock ticks) when the wait began
+    tid: AtomicI32,
+    cpu0: AtomicU64,
+    /// watchdog's own: processor time seen at the last tick, and the tick at which it last moved
+    last_cpu: AtomicU64,
+    moved_at: AtomicU64,
 }
 #[allow(clippy::declare_interior_mutable_const)]
-const SLOT0: Slot = Slot { pid: AtomicI32::new(0), since_ms: AtomicU64::new(0), fired: AtomicI32::new(0) };
+const SLOT0: Slot = Slot { pid: AtomicI32::new(0), since_ms: AtomicU64::new(0), fired: AtomicI32::new(0), tid: AtomicI32::new(0), cpu0: AtomicU64::new(0), last_cpu: AtomicU64::new(0), moved_at: AtomicU64::new(0) };
+/// a thread that computes this long without any system call is spinning (xcp does nothing of the kind)
+pub const SPIN_CPU_MS: u64 = 3_000;
+
+/// user + system time of one task in clock ticks (fields 14 and 15 of /proc/<pid>/task/<tid>/stat)
+fn task_cpu_ticks(pid: i32, tid: i32) -> Option<u64> {
+    let st = std::fs::read_to_string(format!("/proc/{}/task/{}/stat", pid, tid)).ok()?;
+    let rest = &st[st.rfind(')')? + 2..];
+    let f: Vec<&str> = rest.split(' ').collect();
+    Some(f.get(11)?.parse::<u64>().ok()? + f.get(12)?.parse::<u64>().ok()?)
+}
 static SLOTS: [Slot; NSLOTS] = [SLOT0; NSLOTS];
 static WATCHDOG_STARTED: AtomicI32 = AtomicI32::new(0);
 pub static KERNEL_WAIT_CAP_MS: AtomicU64 = AtomicU64::new(20_000);
@@ -294,9 +317,29 @@ pub fn start_watchdog() {
         for s in SLOTS.iter() {
             let since = s.since_ms.load(Ordering::SeqCst);
             let pid = s.pid.load(Ordering::SeqCst);
-            if since != 0 && pid > 0 && now > since + cap && s.fired.load(Ordering::SeqCst) == 0 {
-                s.fired.store(1, Ordering::SeqCst);
-                unsafe { libc::kill(pid, libc::SIGKILL) };
+            if since != 0 && pid > 0 && s.fired.load(Ordering::SeqCst) == 0 {
+                // A thread that is computing (its processor time moves) is not stuck in the kernel, however slowly it
+                // gets on under load: it is left alone until it has burned SPIN_CPU_MS without a system call, which
+                // is a spin. Only a thread whose processor time stands still for the whole cap counts as blocked.
+                let tid = s.tid.load(Ordering::SeqCst);
+                let hz = unsafe { libc::sysconf(libc::_SC_CLK_TCK) }.max(1) as u64;
+                let cpu = if tid > 0 { task_cpu_ticks(pid, tid) } else { None };
+                let cpu0 = s.cpu0.load(Ordering::SeqCst);
+                if let Some(c) = cpu {
+                    if c != s.last_cpu.load(Ordering::SeqCst) || s.moved_at.load(Ordering::SeqCst) < since {
+                        s.last_cpu.store(c, Ordering::SeqCst);
+                        s.moved_at.store(now, Ordering::SeqCst);
+                    }
+                }
+                let spun = cpu.map(|c| c.saturating_sub(cpu0) * 1000 / hz >= SPIN_CPU_MS).unwrap_or(false);
+                let still_since = s.moved_at.load(Ordering::SeqCst).max(since);
+                if spun {
+                    s.fired.store(2, Ordering::SeqCst);
+                    unsafe { libc::kill(pid, libc::SIGKILL) };
+                } else if now > still_since + cap || now > since + 40 * cap {
+                    s.fired.store(1, Ordering::SeqCst);
+                    unsafe { libc::kill(pid, libc::SIGKILL) };
+                }
             }
         }
     });
@@ -331,6 +374,10 @@ struct Th {
     reaped: bool,
     /// stopped before the atomic instruction at this runtime address
     at_bp: Option<u64>,
+    /// when the timed wait this thread is blocked in would expire (real time)
+    wait_deadline: Option<std::time::Instant>,
+    /// sched_yield calls in a row
+    yields: u32,
 }
 
 #[derive(Debug, Clone)]
@@ -802,6 +849,8 @@ impl<'a> Sup<'a> {
             return Ok(st);
         }
         let slot = &SLOTS[self.l.slot % NSLOTS];
+        slot.tid.store(tid, Ordering::SeqCst);
+        slot.cpu0.store(task_cpu_ticks(self.pid, tid).unwrap_or(0), Ordering::SeqCst);
         slot.since_ms.store(now_ms(), Ordering::SeqCst);
         let r = loop {
             let mut status = 0;
@@ -933,7 +982,7 @@ impl<'a> Sup<'a> {
     fn add_thread(&mut self, tid: Pid, path: Vec<u32>, ctid: u64) -> usize {
         let lid = self.th.len();
         let path_s = path_str(&path);
-        self.th.push(Th { tid, path, path_s, nspawned: 0, st: St::Ready, at_entry: false, sysno: -1, args: [0; 6], ctid, yielded: false, skip_ret: None, reaped: false, at_bp: None });
+        self.th.push(Th { tid, path, path_s, nspawned: 0, st: St::Ready, at_entry: false, sysno: -1, args: [0; 6], ctid, yielded: false, skip_ret: None, reaped: false, at_bp: None, wait_deadline: None, yields: 0 });
         lid
     }
 
@@ -1153,6 +1202,7 @@ impl<'a> Sup<'a> {
                     if cur == a[2] as u32 {
                         self.blockseq += 1;
                         self.th[i].st = St::Blocked { addr: a[0], timed: a[3] != 0, seq: self.blockseq };
+                        self.th[i].wait_deadline = if a[3] != 0 { self.futex_deadline(op, a[1], a[3]) } else { None };
                         self.events.push(Ev { idx, th: i, name: "BLOCK".into(), path: None, path2: None, rel: None, rel2: None, fd: -1, fd2: -1, ino: 0, ino2: 0, a, ret: 0, inj: 0 });
                         return Ok(false);
                     }
@@ -1435,6 +1485,9 @@ impl<'a> Sup<'a> {
                         let n = self.th[i].sysno;
                         if n == libc::SYS_sched_yield || n == libc::SYS_nanosleep || n == libc::SYS_clock_nanosleep {
                             self.th[i].yielded = true;
+                            self.th[i].yields += 1;
+                        } else {
+                            self.th[i].yields = 0;
                         }
                         return Ok(());
                     }
@@ -1527,17 +1580,50 @@ impl<'a> Sup<'a> {
         self.reap_all();
     }
 
+    /// real-time instant at which a futex wait with this timeout argument gives up (FUTEX_WAIT: relative;
+    /// FUTEX_WAIT_BITSET: absolute, on CLOCK_MONOTONIC unless FUTEX_CLOCK_REALTIME is set)
+    fn futex_deadline(&self, op: i32, opword: u64, ts_addr: u64) -> Option<std::time::Instant> {
+        let sec = self.read_u64(ts_addr).ok()? as i64;
+        let nsec = self.read_u64(ts_addr + 8).ok()? as i64;
+        let now = std::time::Instant::now();
+        let rel_ns: i128 = if op == 0 {
+            sec as i128 * 1_000_000_000 + nsec as i128
+        } else {
+            let clk = if opword & 256 != 0 { libc::CLOCK_REALTIME } else { libc::CLOCK_MONOTONIC };
+            let mut ts: libc::timespec = unsafe { std::mem::zeroed() };
+            unsafe { libc::clock_gettime(clk, &mut ts) };
+            (sec as i128 - ts.tv_sec as i128) * 1_000_000_000 + (nsec as i128 - ts.tv_nsec as i128)
+        };
+        let rel_ns = rel_ns.clamp(0, 10_000_000_000) as u64;
+        Some(now + std::time::Duration::from_nanos(rel_ns))
+    }
+
+    /// End the timed wait of thread `j` by timeout. The program may look at the clock afterwards (crossbeam does:
+    /// it parks again if its deadline has not passed), so the time really has to be up: every thread of the tracee
+    /// is stopped at this point, and the supervisor sleeps out what remains of the wait (at most 10 s).
+    fn expire_timed_wait(&mut self, j: usize) {
+        if let Some(dl) = self.th[j].wait_deadline.take() {
+            let now = std::time::Instant::now();
+            if dl > now {
+                std::thread::sleep(dl - now + std::time::Duration::from_millis(2));
+            }
+        }
+        self.th[j].st = St::Ready;
+        self.th[j].skip_ret = Some(-(libc::ETIMEDOUT as i64));
+    }
+
     fn prio_rank(pats: &[String], path: &str) -> usize {
         pats.iter().position(|p| pattern_matches(p, path)).unwrap_or(pats.len())
     }
 
     fn default_choice(&self, enabled: &[usize]) -> usize {
-        let nony: Vec<usize> = enabled.iter().cloned().filter(|&j| !self.th[j].yielded).collect();
+        let eager = self.spec.policy == Policy::P2;
+        let nony: Vec<usize> = enabled.iter().cloned().filter(|&j| !self.th[j].yielded || (eager && self.th[j].yields <= 20)).collect();
         let cand: &[usize] = if nony.is_empty() { enabled } else { &nony };
         match &self.spec.policy {
-            Policy::P0 | Policy::P1 => {
+            Policy::P0 | Policy::P1 | Policy::P2 => {
                 if let Some(c) = self.cur {
-                    if cand.contains(&c) && !self.th[c].yielded {
+                    if cand.contains(&c) && (!self.th[c].yielded || (eager && self.th[c].yields <= 20)) {
                         return c;
                     }
                 }
@@ -1579,9 +1665,16 @@ impl<'a> Sup<'a> {
                 self.kill_all();
                 return Ok(Outcome::KernelBlocked(c));
             }
-            if SLOTS[self.l.slot % NSLOTS].fired.load(Ordering::SeqCst) != 0 {
-                self.reap_all();
-                return Ok(Outcome::KernelBlocked("a real system call did not return within the wall-clock cap".into()));
+            match SLOTS[self.l.slot % NSLOTS].fired.load(Ordering::SeqCst) {
+                0 => {}
+                2 => {
+                    self.reap_all();
+                    return Ok(Outcome::StepLimit);
+                }
+                _ => {
+                    self.reap_all();
+                    return Ok(Outcome::KernelBlocked("a real system call did not return within the wall-clock cap".into()));
+                }
             }
             let mut enabled: Vec<usize> = (0..self.th.len()).filter(|&j| self.th[j].st == St::Ready).collect();
             if enabled.is_empty() {
@@ -1602,8 +1695,7 @@ impl<'a> Sup<'a> {
                 }
                 timed.sort();
                 if let Some(&(_, j)) = timed.first() {
-                    self.th[j].st = St::Ready;
-                    self.th[j].skip_ret = Some(-(libc::ETIMEDOUT as i64));
+                    self.expire_timed_wait(j);
                     enabled.push(j);
                 }
             }
@@ -1616,6 +1708,17 @@ impl<'a> Sup<'a> {
                 bail!("no thread left but the process did not report an exit status");
             }
             let default = self.default_choice(&enabled);
+            // A wait with a timeout may also end because the time is up, whatever else is going on (the thread that
+            // would have woken it was slow). By default time stands still while anything can run; letting a timer
+            // land first is one deviation, like a pre-emption.
+            for (j, t) in self.th.iter().enumerate() {
+                if matches!(t.st, St::Blocked { timed: true, .. }) && !enabled.contains(&j) {
+                    enabled.push(j);
+                    if std::env::var_os("XV_DEBUG_TIMED").is_some() {
+                        eprintln!("timed wait of thread {} is a candidate at decision {}", t.path_s, self.decisions.len());
+                    }
+                }
+            }
             let k = self.decisions.len();
             let mut pick = default;
             for (di, dp) in &self.spec.devs {
@@ -1629,6 +1732,9 @@ impl<'a> Sup<'a> {
             if self.spec.kill_at == Some(k) {
                 self.kill_all();
                 return Ok(Outcome::Killed);
+            }
+            if matches!(self.th[pick].st, St::Blocked { timed: true, .. }) {
+                self.expire_timed_wait(pick);
             }
             self.decisions.push(Dec { enabled: enabled.clone(), default, chosen: pick });
             self.cur = Some(pick);
@@ -1761,8 +1867,15 @@ pub fn execute(l: &Launch, spec: &RunSpec) -> Result<RunResult, String> {
     slot.since_ms.store(0, Ordering::SeqCst);
     // a watchdog kill is reported as such even when the dying tracee was collected first as "killed by signal 9",
     // or when the supervisor tripped over the vanished process
-    let watchdog = slot.fired.load(Ordering::SeqCst) != 0;
-    let outcome = if watchdog { Outcome::KernelBlocked("a real system call did not return within the wall-clock cap".into()) } else { res? };
+    // a thread that spun on the processor without a system call is the program's doing (a verdict: it is reported
+    // like an exhausted step budget and not re-run); a call that did not return may be the machine's
+    let fired = slot.fired.load(Ordering::SeqCst);
+    let watchdog = fired == 1;
+    let outcome = match fired {
+        1 => Outcome::KernelBlocked("a real system call did not return within the wall-clock cap".into()),
+        2 => Outcome::StepLimit,
+        _ => res?,
+    };
     let hit_sites: Vec<String> = s.events.iter().filter(|e| e.inj != 0).map(|e| format!("{} {}", e.name, e.rel2.clone().or(e.rel.clone()).unwrap_or_default())).collect();
     Ok(RunResult {
         outcome,
